@@ -11,14 +11,16 @@ variable {R : Con → Prop} {RE : Exp → Prop} {E : Env} {G : St → Prop} {U :
 constraints `U`, the flags are already right for the new ones `U'` -/
 structure MCHalf (RE : Exp → Prop) (E : Env) (U U' : List Con) (fe : Frontend) : Prop where
   valid : ∀ m ∈ fe.models, Models U (m.complete E.dflt)
-  evalExh : ∀ e, RE e → e.id ∈ fe.evalExh → ∀ v, Feasible U' e v → ∃ m ∈ fe.models, e.val (m.complete E.dflt) = v
-  opt : ∀ (isMax signed : Bool) e, RE e → e.id ∈ optFlags isMax signed fe → ∀ v, Feasible U' e v →
-    ∃ m ∈ fe.models, Beats isMax signed e.bits (e.val (m.complete E.dflt)) v
+  evalExh : ∀ e, RE e → e.id ∈ fe.evalExh →
+    ConstUnder U' e ∨ ∀ v, Feasible U' e v → ∃ m ∈ fe.models, e.val (m.complete E.dflt) = v
+  opt : ∀ (isMax signed : Bool) e, RE e → e.id ∈ optFlags isMax signed fe →
+    ConstUnder U' e ∨ ∀ v, Feasible U' e v → ∃ m ∈ fe.models, Beats isMax signed e.bits (e.val (m.complete E.dflt)) v
 
 theorem MCInv.half {U' : List Con} {fe : Frontend} (h : MCInv RE E U fe) (himp : ∀ a, Models U' a → Models U a) :
     MCHalf RE E U U' fe :=
-  ⟨h.valid, fun e he hi v ⟨a, ha, hv⟩ => h.evalExh e he hi v ⟨a, himp a ha, hv⟩,
-   fun isMax signed e he hi v ⟨a, ha, hv⟩ => h.opt isMax signed e he hi v ⟨a, himp a ha, hv⟩⟩
+  have hf : ∀ e v, Feasible U' e v → Feasible U e v := fun _ _ ⟨a, ha, hv⟩ => ⟨a, himp a ha, hv⟩
+  ⟨h.valid, fun e he hi => (h.evalExhW e he hi).imp (·.mono (hf e)) (fun h' v hv => h' v (hf e v hv)),
+   fun isMax signed e he hi => (h.optW isMax signed e he hi).imp (·.mono (hf e)) (fun h' v hv => h' v (hf e v hv))⟩
 
 theorem MCHalf.full {U' : List Con} {fe : Frontend} (h : MCHalf RE E U U' fe)
     (hv : ∀ m ∈ fe.models, Models U' (m.complete E.dflt)) : MCInv RE E U' fe := ⟨hv, h.evalExh, h.opt⟩
@@ -83,38 +85,36 @@ theorem trivOptFe_half (hT : TrivOk R RE) {U' : List Con} {fe : Frontend} (h : M
       have hcompl : (PModel.complete E.dflt [(v, x)]) v = x := by
         simp [PModel.complete, PModel.get?]
       have hmods : listInsert fe.models [(v, x)] = [[(v, x)]] := by rw [hmod]; rfl
-      -- nothing was feasible for an expression flagged before (no model was cached)
-      have hold_e : ∀ e, RE e → e.id ∈ fe.evalExh → ∀ w, ¬ Feasible U' e w := by
-        intro e he hi w ⟨a, ha, hw⟩
-        obtain ⟨m, hm, _⟩ := h.evalExh e he hi w ⟨a, himp a ha, hw⟩
-        rw [hmod] at hm; simp at hm
-      have hold_o : ∀ isMax signed e, RE e → e.id ∈ optFlags isMax signed fe → ∀ w, ¬ Feasible U' e w := by
-        intro isMax signed e he hi w ⟨a, ha, hw⟩
-        obtain ⟨m, hm, _⟩ := h.opt isMax signed e he hi w ⟨a, himp a ha, hw⟩
-        rw [hmod] at hm; simp at hm
+      have hhalf := h.half (U' := U') himp
       refine ⟨?_, ?_, ?_⟩
       · intro m hm
         simp only [hmods, List.mem_singleton] at hm
         subst hm
         exact himp _ ((heq _).mp (by rw [hcs]; intro c' hc'; simp at hc'; subst hc'; exact h1 _ hcompl))
-      · intro e he hi w hw
+      · intro e he hi
         simp only [mem_listInsert] at hi
         rcases hi with hi | hi
-        · exact absurd hw (hold_e e he hi w)
-        · obtain ⟨a, ha, hwa⟩ := hw
-          obtain ⟨h3, h4⟩ := h2 e he hi
-          refine ⟨[(v, x)], by simp [hmods], ?_⟩
-          rw [h4 _ hcompl, ← hwa, h3 a (hval a ha)]
-      · intro isMax signed e he hi w hw
+        · -- flagged before, no model cached: one value at most
+          rcases hhalf.evalExh e he hi with hc' | hs
+          · exact Or.inl hc'
+          · refine Or.inl fun v w hv _ => ?_
+            obtain ⟨m, hm, _⟩ := hs v hv
+            rw [hmod] at hm; cases hm
+        · obtain ⟨h3, _⟩ := h2 e he hi
+          refine Or.inl fun v w ⟨a, ha, hva⟩ ⟨b, hb, hwb⟩ => ?_
+          rw [← hva, ← hwb, h3 a (hval a ha), h3 b (hval b hb)]
+      · intro isMax signed e he hi
         have hi' : e.id ∈ optFlags isMax signed fe ∨ e.id = eid := by
           cases isMax <;> cases signed <;> simpa [optFlags, mem_listInsert] using hi
         rcases hi' with hi' | hi'
-        · exact absurd hw (hold_o isMax signed e he hi' w)
-        · obtain ⟨a, ha, hwa⟩ := hw
-          obtain ⟨h3, h4⟩ := h2 e he hi'
-          refine ⟨[(v, x)], by simp [hmods], ?_⟩
-          rw [h4 _ hcompl, ← hwa, h3 a (hval a ha)]
-          unfold Beats; split <;> exact Int.le_refl _
+        · rcases hhalf.opt isMax signed e he hi' with hc' | hs
+          · exact Or.inl hc'
+          · refine Or.inl fun v w hv _ => ?_
+            obtain ⟨m, hm, _⟩ := hs v hv
+            rw [hmod] at hm; cases hm
+        · obtain ⟨h3, _⟩ := h2 e he hi'
+          refine Or.inl fun v w ⟨a, ha, hva⟩ ⟨b, hb, hwb⟩ => ?_
+          rw [← hva, ← hwb, h3 a (hval a ha), h3 b (hval b hb)]
   · rw [if_neg hc]
     exact h.half himp
 
